@@ -118,14 +118,17 @@ def generate(seed, idx, tier):
         'knobs': knobs, 'shape': shape, 'prefix': ops, 'append': app,
         'profile': rng.choice(('posix', 'objstore')),
         'both_profiles': not quick,
-        'kinds': ['eio', 'enospc_partial', 'eio_partial', 'eio_close',
-                  'crash', 'eio_read', 'interrupt'],
+        'kinds': ['eio', 'enospc_partial', 'enospc_persistent',
+                  'eio_partial', 'eio_close', 'crash', 'eio_read',
+                  'interrupt'],
         'double_frac': 0.34,
         'n_resolutions': 1 if quick else 3,
         'after_meta': 'sample',
         # I/O handed to the library as plain functions (not bound methods of
         # a filesystem object) in a quarter of the scenarios
         'plain_io': rng.random() < 0.25,
+        'spelling': rng.choice((None, None, None, 'sim://' + D.DS,
+                                D.DS + '/')),
     }
 
 
@@ -217,7 +220,7 @@ def applicable(op, kinds):
         elif kind == 'enospc_partial':
             if op != 'close':
                 out.append(kind)
-        elif kind == 'eio_partial':
+        elif kind in ('eio_partial', 'enospc_persistent'):
             if op == 'write':
                 out.append(kind)
         elif kind == 'eio':
@@ -244,7 +247,9 @@ def _drop_late_renames(fs, renum):
 
 def run_append(fs, case, parts, df):
     app = case['append']
-    D.do_append(fs, D.DS, df, app, 'hive', parts)
+    # the caller's spelling of the dataset path: canonical, with the
+    # filesystem's protocol in front, or with a trailing slash
+    D.do_append(fs, case.get('spelling') or D.DS, df, app, 'hive', parts)
 
 
 def execute(case):
@@ -415,8 +420,12 @@ def execute(case):
                                          'double': False,
                                          'dur': frng.randrange(2 ** 31)})
                             if dbl:
+                                # the second fault on the 1st .. 5th call
+                                # issued after the first one
                                 plan.append({'k': k, 'kind': kind,
-                                             'profile': prof, 'double': True,
+                                             'profile': prof,
+                                             'double': frng.choice(
+                                                 (1, 1, 2, 3, 5)),
                                              'dur': frng.randrange(2 ** 31)})
             # read-side calls (stat, listing, open for reading, read) issued
             # before the summary rewrite: each one failed with EIO
@@ -427,8 +436,9 @@ def execute(case):
                     for prof in profiles:
                         plan.append({'rk': e[0], 'kind': 'eio_read',
                                      'profile': prof,
-                                     'double': frng.random()
-                                     < case['double_frac'] / 2,
+                                     'double': frng.choice((1, 2, 3))
+                                     if frng.random() < case['double_frac'] / 2
+                                     else False,
                                      'dur': frng.randrange(2 ** 31)})
             # faults after the metadata rewrite began: executed, only counted
             if case.get('after_meta') == 'sample':
